@@ -187,6 +187,13 @@ func sortStrings(a []string) {
 // VerifScreenStateHash is a cheap lock-free digest of the screen's private state for the
 // scheduler's state keys (evaluated while every goroutine is parked): every scalar field,
 // the cell buffer contents and the sizes of the maps.
+// VerifEscapePending reports whether the input parser holds an ESC back as the Alt prefix of
+// the next key (read while every other goroutine is parked).
+func VerifEscapePending(s Screen) bool {
+	t, ok := s.(*baseScreen).screenImpl.(*tScreen)
+	return ok && t.escaped
+}
+
 func VerifScreenStateHash(s Screen) uint64 {
 	t, ok := s.(*baseScreen).screenImpl.(*tScreen)
 	if !ok {
